@@ -617,6 +617,69 @@ func isReturnErr(b *ast.BlockStmt) bool {
 //	e := RHS;     if e != nil { return ..e.. }                  =>   if e := RHS; e != nil { return ..e.. }
 //
 // (x must not be used anywhere else; e may be reused by later statements of the same shape).
+// the name of the method's *bytes.Buffer parameter ("" if it has none)
+func bufferParam(fd *ast.FuncDecl) string {
+	for _, p := range fd.Type.Params.List {
+		if exprStr(p.Type) == "*bytes.Buffer" && len(p.Names) == 1 {
+			return p.Names[0].Name
+		}
+	}
+	return ""
+}
+
+// a non-negative int expression without effects: literals, len(..), sums and products of those
+func sizeHint(e ast.Expr) bool {
+	switch x := e.(type) {
+	case *ast.BasicLit:
+		if x.Kind != token.INT {
+			return false
+		}
+		v, err := strconv.ParseInt(x.Value, 0, 64)
+		return err == nil && v >= 0 && v <= 1<<16
+	case *ast.ParenExpr:
+		return sizeHint(x.X)
+	case *ast.BinaryExpr:
+		return (x.Op == token.ADD || x.Op == token.MUL) && sizeHint(x.X) && sizeHint(x.Y)
+	case *ast.CallExpr:
+		if id, ok := x.Fun.(*ast.Ident); ok && id.Name == "len" && len(x.Args) == 1 {
+			switch a := x.Args[0].(type) {
+			case *ast.Ident:
+				return true
+			case *ast.SelectorExpr:
+				_, ok := a.X.(*ast.Ident)
+				return ok
+			}
+		}
+	}
+	return false
+}
+
+// dropGrowHints removes top-level statements  buf.Grow(<size hint>)  on an Encode method's buffer parameter (not in
+// Decode, where what is reserved is the subject of C09/C10): Grow changes
+// the buffer's capacity (it may slide or reallocate) but not its unread bytes - Theory/BufferRefine.grow_only_refines,
+// for every buffer state - and the model's buffer IS its unread bytes; a non-negative hint cannot panic short of
+// exhausting memory.  (Anything else done with the capacity - Available, AvailableBuffer, a kept slice - stays outside
+// the grammar.)
+func dropGrowHints(list []ast.Stmt, buf string) []ast.Stmt {
+	if buf == "" {
+		return list
+	}
+	var out []ast.Stmt
+	for _, s := range list {
+		if es, ok := s.(*ast.ExprStmt); ok {
+			if c, ok := es.X.(*ast.CallExpr); ok && len(c.Args) == 1 && sizeHint(c.Args[0]) {
+				if sel, ok := c.Fun.(*ast.SelectorExpr); ok && sel.Sel.Name == "Grow" {
+					if id, ok := sel.X.(*ast.Ident); ok && id.Name == buf {
+						continue
+					}
+				}
+			}
+		}
+		out = append(out, s)
+	}
+	return out
+}
+
 func normalizeBody(list []ast.Stmt) []ast.Stmt {
 	uses := func(name string, from []ast.Stmt) int {
 		n := 0
@@ -1444,7 +1507,7 @@ func scanFuncs(p *pkgInfo) {
 							td.EncBad = true
 						}
 					}()
-					body := normalizeBody(fd.Body.List)
+					body := normalizeBody(dropGrowHints(fd.Body.List, bufferParam(fd)))
 					for i, s := range body {
 						td.Enc = append(td.Enc, c.encStmt(s, i == len(body)-1)...)
 					}
